@@ -258,6 +258,17 @@ def amount_worker(job):
                 r = rng.random()
                 if r < 0.4:
                     ams.append(rng.choice(AMOUNT_POOL))
+                elif r < 0.55:
+                    # every decimal scaling path: d x 10^k coins, k = 0..9, with and without (zero) fractional digits, and d x 10^-k
+                    d = rng.choice([1, 1, 2, 5, 9, 12, 21, 2099, 123])
+                    kk = rng.randrange(0, 10)
+                    a = str(d * 10 ** kk)
+                    if rng.random() < 0.4:
+                        a += '.' + '0' * rng.randrange(1, 9)
+                    elif rng.random() < 0.3:
+                        f = rng.randrange(1, 9)
+                        a = ('0.' + '0' * (f - 1) + str(rng.choice([1, 5, 9]))) if rng.random() < 0.5 else a + '.' + '0' * (f - 1) + str(rng.choice([1, 5, 9]))
+                    ams.append(a)
                 elif r < 0.8:
                     whole = rng.choice([0, 0, 1, 20, 999, 20999999, rng.randrange(10 ** 9)])
                     nd = rng.randrange(0, 9)
